@@ -116,10 +116,19 @@ def _canon(x):
     return x
 
 
+_LONG_LIVED = {}
+_RT_COUNT = [0]
+
+
 def roundtrip(kind, obj, case):
     """returns violations for one object under schema `kind`"""
     out = []
-    sch = _SCH[kind]()
+    # one LONG-LIVED schema instance per kind serves every second object (applications keep their schema objects), a fresh one the others
+    _RT_COUNT[0] += 1
+    if _RT_COUNT[0] % 2:
+        sch = _LONG_LIVED.setdefault(kind, _SCH[kind]())
+    else:
+        sch = _SCH[kind]()
     for via in ("dict", "json"):
         try:
             if via == "dict":
